@@ -62,11 +62,12 @@ type NIClause struct {
 
 // SpecFunc is an uninterpreted or defined spec function.
 type SpecFunc struct {
-	Name   string
-	Params []QVar
-	Ret    string
-	Body   Expr // nil => uninterpreted
-	Text   string
+	PkgPath string
+	Name    string
+	Params  []QVar
+	Ret     string
+	Body    Expr // nil => uninterpreted
+	Text    string
 }
 
 // Axiom / lemma.
@@ -79,8 +80,16 @@ type Axiom struct {
 	Line  int
 }
 
+// HeapBundle names a list of heap maps passed implicitly to spec functions.
+type HeapBundle struct {
+	Name    string
+	PkgPath string
+	Types   []string // type expressions: string, R1.F1, []string, ...
+}
+
 // File is a parsed contract file.
 type File struct {
+	Bundles []*HeapBundle
 	Path    string
 	PkgPath string
 	Funcs   []*FuncContract
@@ -289,7 +298,7 @@ func ParseFile(path, pkgPath string) (*File, error) {
 			if err != nil {
 				return nil, fail(err)
 			}
-			sf := &SpecFunc{Name: m[1], Params: ps, Ret: strings.TrimSpace(m[3]), Text: r}
+			sf := &SpecFunc{PkgPath: pkgPath, Name: m[1], Params: ps, Ret: strings.TrimSpace(m[3]), Text: r}
 			if m[4] != "" {
 				e, err := ParseExpr(m[4])
 				if err != nil {
@@ -309,6 +318,19 @@ func ParseFile(path, pkgPath string) (*File, error) {
 				return nil, fail(err)
 			}
 			out.Axioms = append(out.Axioms, &Axiom{Name: strings.TrimSpace(rest[:i]), Text: strings.TrimSpace(rest[i+1:]), E: e, Lemma: kw == "lemma", File: path, Line: ln})
+			cur = nil
+		case "heaps":
+			i := strings.Index(rest, ":")
+			if i < 0 {
+				return nil, fail(fmt.Errorf("heaps needs 'name: T1, T2'"))
+			}
+			hb := &HeapBundle{Name: strings.TrimSpace(rest[:i]), PkgPath: pkgPath}
+			for _, t := range splitTop(rest[i+1:], ',') {
+				if t = strings.TrimSpace(t); t != "" {
+					hb.Types = append(hb.Types, t)
+				}
+			}
+			out.Bundles = append(out.Bundles, hb)
 			cur = nil
 		case "smt":
 			out.RawSMT = append(out.RawSMT, rest)
